@@ -23,3 +23,38 @@ Definition MemA_set_mpu_spec (arch : Z) (n : nat) (s : machine) (address size va
                | P_abort bg => Exc (EDataAbort (dt bg) 0) (pmsa_fault_state s va 1 (fsb bg))
                end
   end.
+
+(* MemU under the MPU: an aligned access is MemA; with strict alignment an unaligned one faults; otherwise the bytes are
+   transferred one by one in ascending address order, each checked by the MPU with the caller's privilege (so an unprivileged
+   override stays unprivileged for every byte, and a denied byte stops the transfer after the earlier ones) *)
+Fixpoint bytes_set_mpu (arch : Z) (n : nat) (priv : bool) (addrs : list Z) (k : Z) (v : Z) (s : machine) : outcome machine unit :=
+  match addrs with
+  | [] => Ok tt s
+  | a :: t => match MemA_set_mpu_spec arch n s a 1 ((v / 256 ^ k) mod 256) priv with
+              | Ok _ s1 => bytes_set_mpu arch n priv t (k + 1) v s1
+              | Exc e s1 => Exc e s1
+              end
+  end.
+Definition MemU_set_mpu_spec (arch : Z) (n : nat) (secure : bool) (s : machine) (address size value : Z) (priv : bool) : outcome machine unit :=
+  match MemU_kind arch false secure s address size with
+  | MU_aligned a => MemA_set_mpu_spec arch n s a size value priv
+  | MU_fault a => Exc (EDataAbort 2 0) (pmsa_fault_state s a 1 FS_alignment)
+  | MU_bytes a => bytes_set_mpu arch n priv (byte_addrs a 0 (Z.to_nat size)) 0 (endian (big_endian s) size value) s
+  end.
+Fixpoint bytes_get_mpu (arch : Z) (n : nat) (priv : bool) (addrs : list Z) (s : machine) : outcome machine (list Z) :=
+  match addrs with
+  | [] => Ok [] s
+  | a :: t => match MemA_get_mpu_spec arch n s a 1 priv with
+              | Ok b s1 => match bytes_get_mpu arch n priv t s1 with Ok l s2 => Ok (b :: l) s2 | Exc e s2 => Exc e s2 end
+              | Exc e s1 => Exc e s1
+              end
+  end.
+Definition MemU_get_mpu_spec (arch : Z) (n : nat) (secure : bool) (s : machine) (address size : Z) (priv : bool) : outcome machine Z :=
+  match MemU_kind arch false secure s address size with
+  | MU_aligned a => MemA_get_mpu_spec arch n s a size priv
+  | MU_fault a => Exc (EDataAbort 2 0) (pmsa_fault_state s a 0 FS_alignment)
+  | MU_bytes a => match bytes_get_mpu arch n priv (byte_addrs a 0 (Z.to_nat size)) s with
+                  | Ok l s1 => Ok (endian (big_endian s1) size (le_combine l)) s1
+                  | Exc e s1 => Exc e s1
+                  end
+  end.
